@@ -4,18 +4,24 @@ PID = "C11"
 CLAIM = True
 MANIFEST_TEXT = ("Lean 4 theorems, for all operation histories, all element values and all chunk sizes / capacities / block "
                  "sizes, that executable models of ArrayList (chunks/capacity/size/start incl. eraseToHere's chunk-count "
-                 "formula and purge), SLList (node chain + tail pointer + modify iterators), ReservedVector, BitSetVector "
-                 "and lru (node list + key index) refine the abstract sequence / bit-block vector / recency-ordered map "
-                 "(per-operation refinement under an explicit invariant, induction over the history, ArrayList iterator "
-                 "stability under push_back, lru no-duplicate-keys, SLList self-assignment identity); the models are run "
-                 "against the real classes on >= 6000 random histories per run (every op observed: size, empty, front/back, "
-                 "full iteration, comparisons, find, held iterators) with std::deque/list/vector/bitset/map shadow oracles "
+                 "formula, purge and deep copy), SLList (node chain + tail pointer + modify iterators + converting copy), "
+                 "ReservedVector, BitSetVector (incl. the vector<bool> constructor's RangeError) and lru (node list + key index, "
+                 "index rebuilt on copy) refine the abstract sequence / bounded vector / bit-block vector / recency-ordered map "
+                 "(per-operation refinement under an explicit invariant, induction over the history - for ArrayList and lru "
+                 "over interleaved histories of two instances with copies in both directions and self-assignment, for "
+                 "ReservedVector against a nondeterministic specification in which only elements uncovered by a growing "
+                 "resize are unspecified; ArrayList iterator stability under any number of push_backs, lru no-duplicate-keys, "
+                 "SLList self-assignment identity); the models are run against the real classes on >= 6000 random histories "
+                 "per run (every op observed on every instance: size, empty, front/back, full forward/backward/const "
+                 "iteration, comparisons, find, held iterators) with std::deque/list/vector/bitset/map shadow oracles "
                  "deciding the property itself under ASan/UBSan.")
 MANIFEST_NOTE = ("Trusted: Lean kernel (+propext/Classical.choice/Quot.sound), the hand-written models' fidelity (checked by "
                  "differential execution only), harness/cxx_c11.cc and Driver/C11.lean parsing/printing, libstdc++ containers as "
-                 "oracle, g++/ASan/UBSan. Pointer structure of SLList/lru is abstracted to node ids; allocator interplay is "
-                 "only exercised (counting allocator), not modelled. ReservedVector slots uncovered by resize()/the count "
-                 "constructor are unspecified; the protocol assigns them right after the call, so they are never compared.")
+                 "oracle, g++/ASan/UBSan. Pointer structure of SLList/lru is abstracted to node ids; the models have value "
+                 "semantics, so 'a copy shares nothing with its original' is true of the models by construction and is decided "
+                 "for the real classes by the two-instance harness only; allocator interplay is only exercised (counting "
+                 "allocator), not modelled. ReservedVector slots uncovered by resize()/the count constructor are unspecified; "
+                 "the protocol assigns them right after the call, so they are never compared.")
 TECHNIQUE = "Lean 4 refinement proofs (invariant + induction over operation histories) + differential correspondence with std:: shadow oracles"
 TRANSLATORS = []
 HARNESS = dict(
@@ -23,12 +29,14 @@ HARNESS = dict(
     repo_sources=["dune/common/exceptions.cc", "dune/common/stdstreams.cc"],
     flags=["-O0"],   # five containers x several template parameters: -O1 with sanitizers takes > 60 s to compile
 )
-RULE = ("cases: one random operation history (0..40 ops quick, ..60 thorough) per line over ArrayList<int,N> N in {0,1,2,3,4,7}, "
-        "SLList<int> (two instances + modify iterator), ReservedVector<int,n> n in {1,2,4,7} (two instances), "
-        "BitSetVector<B> B in {1,3,8,33}, lru<int,int>; erase positions aimed at chunk boundaries +-1, bursts of pushes "
-        "across chunk boundaries, iterators held across pushes, equal keys, full/empty containers, ~2% ops outside their "
-        "precondition (skipped on both sides); thorough adds all words of length 6 (ArrayList N=1,2,3) / 5 (SLList, lru) over "
-        "a small op alphabet; distinct = distinct op lines; non-trivial = at least one op executed")
+RULE = ("cases: one random operation history (0..40 ops quick, ..60 thorough) per line over ArrayList<int,N> N in {0,1,2,3,4,7} "
+        "(two instances; copy construction/assignment both ways, self-assignment), SLList<int> (two instances + modify "
+        "iterator + converting copy to SLList<long>), ReservedVector<int,n> n in {1,2,4,7} (two instances), BitSetVector<B> B in "
+        "{1,3,8,33} (incl. construction from vector<bool> of fitting / non-fitting length), lru<int,int> (two instances with "
+        "copies); erase positions aimed at chunk boundaries +-1, bursts of pushes across chunk boundaries, iterators held "
+        "across pushes, equal keys, full/empty containers, ~2% ops outside their precondition (skipped on both sides); "
+        "thorough adds all words of length 6 (ArrayList N=1,2,3) / 5 (SLList, lru, two-list ArrayList N=2,3 and two-cache lru "
+        "with copies) over small op alphabets; distinct = distinct op lines; non-trivial = at least one op executed")
 ASSUMPTIONS = [
     "the Lean models lean/DuneVerif/Model/C11/*.lean are hand-written; their fidelity to the headers rests on this differential run",
     "element type int, key type int; the theorems are generic in the element/key type",
@@ -51,7 +59,8 @@ def batches(tier, seed):
         return res
     for i in range(12):
         res.append(dict(args=["--seed", _seed(seed, i), "--cases", "15000", "--tier", tier], tag="g%d" % i, timeout=3000))
-    for kind, n in (("al1", 7 ** 6), ("al2", 7 ** 6), ("al3", 7 ** 6), ("sl", 10 ** 5), ("lru", 8 ** 5)):
+    for kind, n in (("al1", 7 ** 6), ("al2", 7 ** 6), ("al3", 7 ** 6), ("sl", 10 ** 5), ("lru", 8 ** 5),
+                    ("al2c", 10 ** 5), ("al3c", 10 ** 5), ("lruc", 10 ** 5)):
         res.append(dict(args=["--enum", kind, "--cases", str(n), "--tier", tier], tag="enum_" + kind, timeout=3000))
     return res
 
